@@ -97,7 +97,7 @@ def shards(tier, seed):
 
 
 def min_required(tier):
-    return {"retrieves_of_sharers": 20000, "last_delete_removes_object": 200, "removal_monitor_schedules": 2000}
+    return {"retrieves_of_sharers": 20000, "last_delete_removes_object": 200, "removal_monitor_schedules": 1000}
 
 
 def run_seq(pool, ops, res, pids_all):
